@@ -61,7 +61,11 @@ func (g *rpGen) block(depth int, pfx string, n int) []Sx {
 				name, sub = g.r.Pick([]string{"", "/"}), pfx
 			}
 			body := g.block(depth+1, sub, g.r.Range(0, 3))
-			ss = append(ss, L(A("group"), S(name), LS(g.mws(2)), LS(body)))
+			grp := L(A("group"), S(name), LS(g.mws(2)), LS(body))
+			if g.r.Chance(1, 4) { // the same scope through Router.Controller
+				grp.List = append(grp.List, A("ctl"))
+			}
+			ss = append(ss, grp)
 		default:
 			ss = append(ss, g.route(pfx))
 		}
@@ -92,8 +96,13 @@ func (g *rpGen) route(pfx string) Sx {
 		later = g.mws(2)
 	}
 	s := L(A("route"), SL([]string{"GET"}), S(reg), I(mainID), LS(g.mws(2)), LS(later), S(""))
-	if g.r.Chance(1, 4) { // the route carries its middleware when it is added (NewRoute().Use().AttachTo / AddRoute)
+	switch g.r.Intn(8) {
+	case 0: // the route carries its middleware when it is added (NewRoute().Use() then AddRoute / AttachTo)
 		s.List = append(s.List, A("pre"))
+	case 1:
+		s.List = append(s.List, A("attach"))
+	case 2, 3: // r.GET(path, main, mw...)
+		s.List = append(s.List, A("short"))
 	}
 	g.reqs = append(g.reqs, L(S("GET"), S(pfx+path), L()))
 	g.routeIx++
